@@ -271,6 +271,13 @@ pub fn gen_prog(r: &mut Rng, depth: u32) -> (String, Vars) {
             else { legacy.push(format!("(Report.hole{} {})", i, init)); }
         }
     }
+    // now and then a declaration named like a datapath register, or like a literal (the name slot takes whatever the
+    // name parser takes); the statements generated below do not use it
+    if r.chance(1, 10) {
+        let n = *r.pick(&["Cwnd", "Rate", "Micros", "Ack.bytes_acked", "Flow.rtt_sample_us", "Flow.was_timeout", "7", "true", "false", "0", "+infinity", "007", "Report", "when", "def", "volatile7"]);
+        let d = format!("({}{} {})", if r.chance(1, 3) { "volatile " } else { "" }, n, lit_num(r));
+        if use_struct && r.chance(1, 3) { struct_decls.push(d); } else { ctl_decls.push(d); }
+    }
     // declaration order: control/legacy before, struct, control/legacy after
     let mut before = vec![]; let mut after = vec![];
     for d in ctl_decls.into_iter().chain(legacy) { if r.chance(1, 2) { before.push(d); } else { after.push(d); } }
@@ -286,10 +293,21 @@ pub fn gen_prog(r: &mut Rng, depth: u32) -> (String, Vars) {
             let c = gen_bool(r, &v, depth.min(2));
             if c.starts_with('(') { c } else { "true".to_string() } };
         let cond = if r.chance(1, 30) && cond.starts_with('(') { format!("({} {} {})", bind_kw(r), cond, r.pick(&["true", "false"])) } else { cond };
+        // a local that is first bound inside a condition (and lives on: later statements and events may read it)
+        let cond = if r.chance(1, 12) && v.locals.len() < 5 {
+            let n = format!("cl{}", v.locals.len());
+            let e = gen_num(r, &v, 1);
+            v.locals.push((n.clone(), false));
+            match r.below(3) {
+                0 => format!("(> ({} {} {}) {})", bind_kw(r), n, e, r.below(2000)),
+                1 => format!("(&& (< {} ({} {} {})) {})", r.below(50), bind_kw(r), n, e, if cond.starts_with('(') { cond.clone() } else { "(== 1 1)".to_string() }),
+                _ => format!("(|| {} (== ({} {} {}) 0))", if cond.starts_with('(') { cond.clone() } else { "(== 1 2)".to_string() }, bind_kw(r), n, e),
+            }
+        } else { cond };
         src.push_str(&format!("\n(when {}", cond));
         if r.chance(1, 20) {
             // an event whose body is only comments: when its condition holds it still ends the invocation
-            src.push_str("\n  # nothing to do here\n"); if r.chance(1, 2) { src.push_str("  #\n"); }
+            src.push_str(if r.chance(1, 3) { "\n  # rien à faire ici (report)\n" } else { "\n  # nothing to do here\n" }); if r.chance(1, 2) { src.push_str("  #\n"); }
             src.push(')');
             continue;
         }
@@ -526,6 +544,12 @@ pub fn run_c14(tier: &str, seed: u64, out: &mut dyn Write) {
         for target in ["limit", "Limit", "lim", "Report.y", "Report.Y"] {
             emit_param(out, &format!("lit={}", v), b"(def (Limit 10) (limit 20) (lim 30) (Report (Y 1) (y 2))) (when true (:= limit (+ Limit lim)) (report))", &[(target.to_string(), v)], &names3);
         }
+        // ... also when entries the compiler does not apply come before it in the list (a reserved name, a name the
+        // program does not declare, a datapath register, a local)
+        for first in ["__shouldReport", "__eventFlag", "__x", "nosuch", "Cwnd", "Ack.bytes_acked", "loc"] {
+            emit_param(out, &format!("lit={}", v), b"(def (x 5) (Report (y 1))) (when true (:= loc 1) (report))", &[(first.to_string(), 1), ("x".to_string(), v)], &names);
+            emit_param(out, &format!("lit={}", v), b"(def (x 5) (Report (y 1))) (when true (:= loc 1) (report))", &[(first.to_string(), 7), ("nosuch2".to_string(), 9), ("Report.y".to_string(), v)], &names);
+        }
         // ... whatever the declared initial value was (a boolean, a name)
         let names2 = vec!["flag".to_string(), "Report.on".to_string(), "cap".to_string()];
         for target in ["flag", "Report.on", "cap"] {
@@ -586,11 +610,14 @@ pub fn layout_variant(r: &mut Rng, toks: &[String]) -> String {
             // ordinary text, an empty comment, a blank one, one that looks like code; among statements several in a row
             let ncom = if at_stmt && r.chance(1, 4) { 2 + r.below(2) } else { 1 };
             for _ in 0..ncom {
-                match r.below(7) {
+                match r.below(9) {
                     0 => s.push_str("#\n"),
                     1 => s.push_str("#  \t \n"),
                     2 => s.push_str("# (when true (report))\n"),
                     3 => s.push_str("# old:\r(:= Cwnd 1) \r (report)\n"),
+                    // text that is not ASCII (2-, 3- and 4-byte characters), followed on the same line by what would be code
+                    4 => s.push_str("# Δt since the last report — kept in t (:= Cwnd 1)\n"),
+                    5 => s.push_str(&format!("# 窓 {} 𝛼β (report) x\n", r.below(100))),
                     _ => s.push_str(&format!("# comment {} (with parens) := x\n", r.below(100))),
                 }
                 s.push_str(&ws_run(r, 0));
